@@ -172,3 +172,29 @@ AGGS = {
     "classification": ["postal_code", "county_classification"],
     "district": ["postal_code", "district"],
 }
+
+
+def init_defaults(clsqual):
+    """the attributes that the class's own __init__ sets to a constant, to None, to an empty container or to
+    model_settings.get(name, <constant>) -- with those defaults.  Harness objects built without running __init__ take them,
+    so that a field added to __init__ with a simple default exists on the harness object as well."""
+    import ast
+
+    from pyvc import source
+
+    parts = clsqual.split(".")
+    mod = source.module(".".join(parts[:-1]))
+    cls = mod.classes[parts[-1]]
+    out = {}
+    for fn in cls.body:
+        if isinstance(fn, ast.FunctionDef) and fn.name == "__init__":
+            for n in ast.walk(fn):
+                if isinstance(n, ast.Assign) and len(n.targets) == 1 and isinstance(n.targets[0], ast.Attribute) and isinstance(n.targets[0].value, ast.Name) and n.targets[0].value.id == "self":
+                    v = n.value
+                    if isinstance(v, ast.Call) and isinstance(v.func, ast.Attribute) and v.func.attr == "get" and len(v.args) == 2:
+                        v = v.args[1]
+                    try:
+                        out[n.targets[0].attr] = ast.literal_eval(v)
+                    except Exception:
+                        pass
+    return out
